@@ -196,6 +196,19 @@ def gen_composite_program(rng, idx):
     return {'files': {main: '\n'.join(L) + '\n'}, 'requests': reqs, 'constructs': {'composite%d' % ncls: 1}, 'scope': 'composite'}
 
 
+def big_program(n):
+    """more candidates than any cap a proposal list might get: n names bound in both branches of an if (their tables merge through
+    hash-ordered containers), completed as names and as attributes of the imported module"""
+    names = ['nm%04d_%s' % (i, 'abcdefghij'[i % 10] * (i % 7)) for i in range(n)]
+    body = 'import sys\nif sys.argv:\n' + ''.join('    %s = 0\n' % x for x in names) + 'else:\n' + ''.join('    %s = 1\n' % x for x in reversed(names))
+    return {'files': {'zq_big.py': body, 'zq_big_cur.py': body + 'nm', 'zq_big_use.py': 'import zq_big\nzq_big.', 'zq_big_star.py': 'from zq_big import *\nnm'},
+            'requests': [{'kind': 'assist', 'src_file': 'zq_big_cur.py', 'pos': [2 * n + 4, 2]},
+                         {'kind': 'assist', 'src_file': 'zq_big_use.py', 'pos': [2, 7]},
+                         {'kind': 'assist', 'src_file': 'zq_big_star.py', 'pos': [2, 2]},
+                         {'kind': 'lint', 'src_file': 'zq_big_star.py'}],
+            'constructs': {'big-%d-names' % n: 1}, 'scope': 'module'}
+
+
 def materialise(prog, root):
     """write the files of a program under `root` -> concrete requests for the runner"""
     os.makedirs(root, exist_ok=True)
@@ -429,6 +442,7 @@ def run(check):
     progs = []
     for i in range(n_prog):
         progs.append(gen_composite_program(rng, i) if i % 5 == 4 else gen_flow_program(rng, i))
+    progs.append(big_program(1200))
     root = os.path.join(SCRATCH, 'run-%d' % os.getpid())
     shutil.rmtree(root, ignore_errors=True)
     try:
